@@ -459,6 +459,9 @@ func (ex *Exec) branch(c *Term) bool {
 		return mv
 	}
 	mv := ex.evalModel(c) == 1
+	if traceQ {
+		fmt.Fprintf(os.Stderr, "Q %s @ %s\n", c.String(), ex.site(ex.cur))
+	}
 	var other *Term
 	if mv {
 		other = Not(c)
@@ -700,6 +703,7 @@ func (eng *Engine) done() {
 }
 
 var logMu sync.Mutex
+var traceQ = os.Getenv("GOSYM_TRACEQ") != ""
 
 func (eng *Engine) logQuery(id, script string) {
 	logMu.Lock()
@@ -943,7 +947,7 @@ func (eng *Engine) runExec(ex0 *Exec, p *pending) (ex *Exec) {
 		case pathEnd:
 			ex.extraNotes["path-ended: "+r.why]++
 		case inconclusive:
-			ex.incon = append(ex.incon, r.msg)
+			ex.incon = append(ex.incon, r.msg+" at "+ex.site(ex.cur))
 		case budgetExceeded:
 			if eng.Cfg.BudgetViolation {
 				ex.addViolation("budget", "termination", r.what, ex.model)
